@@ -7,6 +7,9 @@
 //                            freed by random threads and every owner collects: its heap must hold no pages
 //          exit   (C09)      threads terminate (mi_thread_done) with live blocks, others free/reclaim
 //          heap   (C10)      heaps are deleted / collected while other threads free into them
+//          lock   (C02/C08)  the tfree program, but the output is the schedule-lockstep log for the Coq model
+//                            coq/Model/TFree.v (format: header of ocaml/mode_tfree.ml, replayed by `replay tfree-lockstep`):
+//                            A/R call brackets, B live blocks, H heaps, G page snapshots at call return, S atomic steps
 // Output: "V <kind> ..." oracle violations, "S ..." atomic step log (with `log`), "END steps=.. viol=.."
 #include REPO_STATIC
 #include <stdio.h>
@@ -26,6 +29,7 @@ static long steps = 0, max_steps = 4000000, nviol = 0, spurious = 0, switches = 
 static prng_t G;       // scheduler choices
 static prng_t GP;      // program choices
 static int mode = 0;   // 0 tfree, 1 exit, 2 heap
+static int lockfmt = 0; // mode `lock`: tfree program, log in the lockstep format of ocaml/mode_tfree.ml
 static int nops = 200;
 static volatile int phase = 0, arrived = 0;
 
@@ -39,7 +43,9 @@ static void viol(const char* kind, const char* fmt, ...) {
 
 // ---- shared slot table (accessed only between allocator calls: no scheduling point inside) ----
 typedef struct { uint8_t* p; size_t size; uint64_t seed; int owner; int heapk; } slot_t;
-static slot_t slots[NSLOT];
+#define NFAREWELL 6
+#define NSLOTX (NSLOT + MAXT * NFAREWELL)      // the tail holds 'farewell' blocks a thread allocates just before it exits
+static slot_t slots[NSLOTX];
 static inline uint8_t pat(uint64_t seed, size_t i) { uint64_t x = seed + i * 0x9E3779B97F4A7C15ull; x ^= x >> 29; x *= 0xBF58476D1CE4E5B9ull; x ^= x >> 32; return (uint8_t)x | 1; }
 
 // ---- known pages / heaps for step classification ----
@@ -51,6 +57,7 @@ static int heap_id(mi_heap_t* h) { for (int i = 0; i < nkheaps; i++) if (kheaps[
 
 static void classify(volatile void* p, char* buf, size_t n) {
   for (int i = 0; i < npages; i++) {
+    if (pages[i] == NULL) continue;
     if (p == (void*)&pages[i]->xthread_free) { snprintf(buf, n, "tf:%d", i); return; }
     if (p == (void*)&pages[i]->xheap) { snprintf(buf, n, "xh:%d", i); return; }
   }
@@ -75,7 +82,7 @@ static void switch_to(int n) {
 static int stay_pct = 55, burst_left = 0;
 static int is_shared_word(volatile void* p) {
   if (p == NULL) return 0;
-  for (int i = 0; i < npages; i++) if (p == (void*)&pages[i]->xthread_free || p == (void*)&pages[i]->xheap) return 1;
+  for (int i = 0; i < npages; i++) if (pages[i] != NULL && (p == (void*)&pages[i]->xthread_free || p == (void*)&pages[i]->xheap)) return 1;
   for (int i = 0; i < nkheaps; i++) if (p == (void*)&kheaps[i]->thread_delayed_free) return 1;
   return 0;
 }
@@ -94,6 +101,64 @@ static int pick_next(int must_leave, int critical) {
   return nx;
 }
 
+
+// ---- mode `lock`: the log format of ocaml/mode_tfree.ml ------------------------------------------
+static int pg_owner[MAXPG];              // owning virtual thread of a registered page (-1 = slot not in use)
+static int heap_printed[64];
+static size_t blk_idx(mi_page_t* pg, void* b) { return (size_t)((uint8_t*)b - pg->page_start) / pg->block_size; }
+static int page_known(mi_page_t* pg) { for (int i = 0; i < npages; i++) if (pages[i] == pg) return i; return -1; }
+static void lk_tf(mi_page_t* pg, uintptr_t v) {           // "<flag> <idx> <idx> ..."
+  printf("%d", (int)(v & 3));
+  mi_block_t* b = (mi_block_t*)(v & ~(uintptr_t)3); int cnt = 0;
+  while (b != NULL && cnt < 4096) { printf(" %zu", blk_idx(pg, b)); b = (mi_block_t*)b->next; cnt++; }
+}
+static void lk_del(uintptr_t v) {                          // "0 <page>.<idx> ..."
+  printf("0");
+  mi_block_t* b = (mi_block_t*)v; int cnt = 0;
+  while (b != NULL && cnt < 4096) { mi_page_t* pg = _mi_ptr_page(b); printf(" %d.%zu", page_known(pg), blk_idx(pg, b)); b = (mi_block_t*)b->next; cnt++; }
+}
+static void lk_heapval(uintptr_t v) { if (v == 0) printf("0"); else printf("0 %d", heap_id((mi_heap_t*)v)); }
+static void lk_step(int op, volatile void* p, int ok, uintptr_t oldv) {
+  char cls[32]; classify(p, cls, sizeof cls);
+  if (!strcmp(cls, "other")) return;
+  uintptr_t newv = *(volatile uintptr_t*)p;
+  const char* kind = (op == VOP_LOAD) ? "L" : (op == VOP_STORE) ? "W" : (op == VOP_CASW || op == VOP_CASS) ? (ok == 1 ? "C" : "F") : "?";
+  int k = atoi(cls + 3);
+  if (cls[0] == 't') { printf("S %d %s tf %d ", cur, kind, k); lk_tf(pages[k], oldv); printf(" -> "); lk_tf(pages[k], newv); printf("\n"); }
+  else if (cls[0] == 'x') { printf("S %d %s heap %d ", cur, kind, k); lk_heapval(oldv); printf(" -> "); lk_heapval(newv); printf("\n"); }
+  else { printf("S %d %s del %d ", cur, kind, k); lk_del(oldv); printf(" -> "); lk_del(newv); printf("\n"); }
+}
+static void lk_list(mi_page_t* pg, mi_block_t* b) { int cnt = 0; while (b != NULL && cnt < 70000) { printf(" %zu", blk_idx(pg, b)); b = (mi_block_t*)b->next; cnt++; } }
+// the calling thread is between two API calls: declare its heaps, snapshot all its pages, retire the ids of freed pages
+static void lk_sync(void) {
+  if (!lockfmt || !do_log) return;
+  int so = sched_on; sched_on = 0;                          // the snapshot itself is not a scheduling point
+  mi_heap_t* dh = mi_prim_get_default_heap();
+  static int seen[MAXPG];
+  for (int i = 0; i < npages; i++) seen[i] = 0;
+  if (dh != NULL && dh != (mi_heap_t*)&_mi_heap_empty) {
+    for (mi_heap_t* h = dh->tld->heaps; h != NULL; h = h->next) {
+      int hid = heap_id(h);
+      if (hid >= 0 && !heap_printed[hid]) { heap_printed[hid] = 1; printf("H %d %d %d\n", hid, cur, h == dh->tld->heap_backing ? 1 : 0); }
+      for (size_t b = 0; b <= MI_BIN_FULL; b++) for (mi_page_t* pg = h->pages[b].first; pg != NULL; pg = pg->next) {
+        int k = page_id(pg); if (k < 0) continue;
+        pg_owner[k] = cur; seen[k] = 1;
+        uintptr_t tf = pg->xthread_free;
+        printf("G %d %d %d %u %u %u %d %d :", k, hid, cur, (unsigned)pg->reserved, (unsigned)pg->capacity, (unsigned)pg->used, (int)mi_page_is_in_full(pg), (int)(tf & 3));
+        lk_list(pg, pg->free); printf(" :"); lk_list(pg, pg->local_free); printf(" :"); lk_list(pg, (mi_block_t*)(tf & ~(uintptr_t)3)); printf("\n");
+      }
+    }
+  }
+  for (int i = 0; i < npages; i++) if (pages[i] != NULL && pg_owner[i] == cur && !seen[i]) { printf("G %d dead\n", i); pages[i] = NULL; pg_owner[i] = -1; }
+  sched_on = so;
+}
+static void lk_call(const char* what, void* p) {            // "A <tid> <call> [<page>.<idx>]"
+  if (!lockfmt || !do_log) return;
+  if (p != NULL) { mi_page_t* pg = _mi_ptr_page(p); printf("A %d %s %d.%zu\n", cur, what, page_known(pg), blk_idx(pg, _mi_page_ptr_unalign(pg, p))); }
+  else printf("A %d %s\n", cur, what);
+}
+static void lk_ret(void) { if (lockfmt && do_log) { printf("R %d\n", cur); lk_sync(); } }
+
 int verif_pre(int op, volatile void* p) {
   if (!sched_on) return 0;
   steps++;
@@ -106,6 +171,7 @@ int verif_pre(int op, volatile void* p) {
 }
 void verif_post(int op, volatile void* p, int ok, uintptr_t oldv) {
   if (!sched_on || !do_log || p == NULL) return;
+  if (lockfmt) { lk_step(op, p, ok, oldv); return; }
   char cls[32]; classify(p, cls, sizeof cls);
   if (!strcmp(cls, "other")) return;
   uintptr_t newv = *(volatile uintptr_t*)p;
@@ -131,13 +197,16 @@ static void do_alloc(int s) {
   size_t size = (prng_below(&GP, 10) < 7) ? FOCUS[prng_below(&GP, 6)] : SIZES[prng_below(&GP, sizeof(SIZES) / sizeof(SIZES[0]))];
   uint64_t seed = prng_next(&GP);
   int useheap = (mode == 2 && extra_heap[cur] != NULL && prng_below(&GP, 3) != 0);
+  lk_call("malloc", NULL);
   uint8_t* p = (uint8_t*)(useheap ? mi_heap_malloc(extra_heap[cur], size) : mi_malloc(size));
+  lk_ret();
+  if (lockfmt && do_log && p != NULL) { mi_page_t* pg = _mi_ptr_page(p); printf("B %d %d.%zu\n", cur, page_known(pg), blk_idx(pg, p)); }
   if (p == NULL) { viol("fail", "malloc(%zu) returned NULL", size); return; }
   // nobody else may hold this memory
-  for (int i = 0; i < NSLOT; i++) if (slots[i].p != NULL) {
+  for (int i = 0; i < NSLOTX; i++) if (slots[i].p != NULL) {
     if (p < slots[i].p + slots[i].size && slots[i].p < p + size) { viol("overlap", "malloc(%zu)=%p overlaps live slot %d [%p,+%zu) of t%d", size, p, i, slots[i].p, slots[i].size, slots[i].owner); break; }
   }
-  if (slots[s].p != NULL) { mi_free(p); return; }      // slot was filled while we were inside malloc
+  if (slots[s].p != NULL) { lk_call("free", p); mi_free(p); lk_ret(); return; }      // slot was filled while we were inside malloc
   for (size_t i = 0; i < size; i++) p[i] = pat(seed, i);
   slots[s].p = p; slots[s].size = size; slots[s].seed = seed; slots[s].owner = cur; slots[s].heapk = useheap;
   page_id(_mi_ptr_page(p)); heap_id(mi_page_heap(_mi_ptr_page(p)) ? mi_page_heap(_mi_ptr_page(p)) : mi_prim_get_default_heap());
@@ -146,7 +215,10 @@ static void do_free(int s) {
   if (slots[s].p == NULL) return;
   check_block(s, "before free");
   uint8_t* p = slots[s].p; slots[s].p = NULL;          // take it: from now on we hold the block
+  if (lockfmt && do_log && slots[s].owner != cur) { mi_page_t* pg = _mi_ptr_page(p); printf("A %d give %d.%zu %d\n", slots[s].owner, page_known(pg), blk_idx(pg, p), cur); }
+  lk_call("free", p);
   mi_free(p);
+  lk_ret();
 }
 static void barrier(int target) {      // all live threads reach `target`
   arrived++;
@@ -165,7 +237,7 @@ static void run_program(void) {
       int best = -1; for (int j = 0; j < NSLOT; j++) { int q = (s + j) % NSLOT; if (slots[q].p != NULL) { best = q; if (slots[q].owner != cur) break; } }
       if (best >= 0) do_free(best);
     }
-    else if (r < 90) mi_collect(prng_below(&GP, 2) != 0);
+    else if (r < 90) { int f = prng_below(&GP, 2) != 0; if (lockfmt && do_log) printf("A %d collect %d %d\n", cur, heap_id(mi_prim_get_default_heap()), f); mi_collect(f); lk_ret(); }
     else if (r < 93) verif_pre(VOP_YIELD, NULL);
     else if (mode == 1 && cur != 0 && r < 96 && k > nops / 4) { break; }          // terminate early with live blocks
     else if (mode == 2 && cur != 0 && extra_heap[cur] != NULL && r < 97) {
@@ -179,19 +251,26 @@ static void run_program(void) {
     }
     else if (slots[s].p != NULL) check_block(s, "spot check");
   }
+  if (mode == 1 && cur != 0) {
+    // farewell blocks: left behind in segments that are abandoned when this thread exits
+    for (int k = 0; k < NFAREWELL; k++) { int s = NSLOT + cur * NFAREWELL + k; if (slots[s].p == NULL) do_alloc(s); }
+  }
   if (mode == 0) {
     // phase 1: everything is freed, by whichever thread gets there first
     barrier(1);
     for (int j = 0; j < NSLOT; j++) { int q = (j * 7 + cur * 13) % NSLOT; if (slots[q].p != NULL) do_free(q); }
     barrier(2);
     // phase 2: every owner collects; its heap must then hold no pages (C08)
+    if (lockfmt && do_log) printf("A %d collect %d 1\n", cur, heap_id(mi_prim_get_default_heap()));
     mi_collect(true);
+    lk_ret();
     mi_heap_t* h = mi_prim_get_default_heap();
     if (cur != 0 && heap_pages(h) != 0) {
       size_t used = 0; for (size_t b = 0; b <= MI_BIN_FULL; b++) for (mi_page_t* pg = h->pages[b].first; pg; pg = pg->next) used += pg->used;
       viol("lost", "after all blocks were freed and the owner collected, its heap still holds %zu pages (%zu blocks counted as used)", heap_pages(h), used);
     }
     barrier(3);
+    if (lockfmt) do_log = 0;          // thread exit (abandonment) is not part of the TFree model
   }
   if (mode == 2 && cur != 0 && extra_heap[cur] != NULL) { mi_heap_t* h = extra_heap[cur]; extra_heap[cur] = NULL; mi_heap_delete(h); }
 }
@@ -207,11 +286,41 @@ static void vthread_main(void) {
 
 static void on_segv(int sig) { printf("V crash signal %d in t%d at step %ld\nEND steps=%ld viol=%ld\n", sig, cur, steps, steps, nviol + 1); fflush(stdout); _exit(4); }
 
+// ---- C12: mi_abandoned_visit_blocks at quiescence (mode exit) --------------------------------------
+static struct { uint8_t* b; size_t sz; } avis[4096]; static size_t navis = 0;
+static bool abandoned_visitor(const mi_heap_t* heap, const mi_heap_area_t* area, void* block, size_t bsize, void* arg) {
+  (void)heap; (void)area; (void)arg;
+  if (block != NULL && navis < 4096) { avis[navis].b = (uint8_t*)block; avis[navis].sz = bsize; navis++; }
+  return true;
+}
+static void check_abandoned_visit(void) {
+  navis = 0;
+  if (!mi_abandoned_visit_blocks(mi_subproc_main(), -1, true, &abandoned_visitor, NULL)) { viol("abandoned-visit", "mi_abandoned_visit_blocks returned false"); return; }
+  size_t expect = 0;
+  for (int j = 0; j < NSLOTX; j++) {
+    if (slots[j].p == NULL) continue;
+    mi_segment_t* seg = _mi_ptr_segment(slots[j].p);
+    if (mi_atomic_load_relaxed(&seg->thread_id) != 0) continue;       // not abandoned: belongs to a live heap
+    expect++;
+    int hits = 0;
+    for (size_t k = 0; k < navis; k++) if (slots[j].p >= avis[k].b && slots[j].p < avis[k].b + avis[k].sz) { hits++; if (slots[j].p + slots[j].size > avis[k].b + avis[k].sz) viol("abandoned-visit", "visited range does not enclose slot %d", j); }
+    if (hits != 1) viol("abandoned-visit", "live block of slot %d (%p, size %zu, left behind by t%d) reported %d times by mi_abandoned_visit_blocks", j, slots[j].p, slots[j].size, slots[j].owner, hits);
+  }
+  for (size_t k = 0; k < navis; k++) {
+    int live = 0;
+    for (int j = 0; j < NSLOTX; j++) if (slots[j].p != NULL && slots[j].p >= avis[k].b && slots[j].p < avis[k].b + avis[k].sz) live++;
+    if (live != 1) viol("abandoned-visit", "mi_abandoned_visit_blocks reported [%p,+%zu) which holds %d live blocks", avis[k].b, avis[k].sz, live);
+  }
+  printf("O abandoned-visit expected=%zu visited=%zu\n", expect, navis);
+}
+
 static bool count_visitor(const mi_heap_t* heap, const mi_heap_area_t* area, void* block, size_t bsize, void* arg) { (void)heap; (void)area; (void)bsize; if (block != NULL) (*(size_t*)arg)++; return true; }
 
 int main(int argc, char** argv) {
-  if (argc < 5) { fprintf(stderr, "usage: s_conc <tfree|exit|heap> <seed> <nthreads> <nops> [log]\n"); return 2; }
-  mode = !strcmp(argv[1], "tfree") ? 0 : !strcmp(argv[1], "exit") ? 1 : 2;
+  if (argc < 5) { fprintf(stderr, "usage: s_conc <tfree|exit|heap|lock> <seed> <nthreads> <nops> [log]\n"); return 2; }
+  lockfmt = !strcmp(argv[1], "lock");
+  mode = (!strcmp(argv[1], "tfree") || lockfmt) ? 0 : !strcmp(argv[1], "exit") ? 1 : 2;
+  for (int i = 0; i < MAXPG; i++) pg_owner[i] = -1;
   uint64_t seed = strtoull(argv[2], NULL, 10); nthreads = atoi(argv[3]); nops = atoi(argv[4]); do_log = argc > 5;
   if (nthreads > MAXT) nthreads = MAXT;
   if (nthreads < 2) nthreads = 2;
@@ -221,6 +330,7 @@ int main(int argc, char** argv) {
   signal(SIGSEGV, on_segv); signal(SIGBUS, on_segv); signal(SIGABRT, on_segv);
   if (getenv("VERIF_RECLAIM_ON_FREE")) mi_option_set(mi_option_abandoned_reclaim_on_free, atoi(getenv("VERIF_RECLAIM_ON_FREE")));
   if (getenv("VERIF_NO_ARENA")) mi_option_set(mi_option_disallow_arena_alloc, 1);
+  if (mode == 1) mi_option_set(mi_option_visit_abandoned, 1);   // must be enabled from the start
   void* warm = mi_malloc(8); mi_free(warm);
   vts[0].alive = 1; vts[0].defheap = _mi_heap_default; heap_id(mi_prim_get_default_heap());
   for (int i = 1; i < nthreads; i++) {
@@ -235,8 +345,9 @@ int main(int argc, char** argv) {
   // wait for the others
   for (;;) { int live = 0; for (int i = 1; i < nthreads; i++) live += vts[i].alive; if (!live) break; verif_pre(VOP_YIELD, NULL); }
   sched_on = 0;
+  if (mode == 1) check_abandoned_visit();
   // quiescence: free what is left, collect, and look at what the allocator still holds
-  for (int j = 0; j < NSLOT; j++) if (slots[j].p != NULL) { check_block(j, "at quiescence"); uint8_t* p = slots[j].p; slots[j].p = NULL; mi_free(p); }
+  for (int j = 0; j < NSLOTX; j++) if (slots[j].p != NULL) { check_block(j, "at quiescence"); uint8_t* p = slots[j].p; slots[j].p = NULL; mi_free(p); }
   for (int k = 0; k < 3; k++) mi_collect(true);
   size_t blocks = 0; mi_heap_visit_blocks(mi_prim_get_default_heap(), true, &count_visitor, &blocks);
   size_t abandoned = mi_atomic_load_relaxed(&mi_subproc_default.abandoned_count);
